@@ -866,7 +866,8 @@ class Interp:
             # some element of a collection of unknown content (nothing is known about which one)
             if not self.ctx.decide(self.symiter_nonempty(base), "symiter-index-nonempty"):
                 raise PyExc("IndexError")
-            if self.ctx.flip("symiter-index-out-of-range"):
+            first_or_last = isinstance(self.force(idx), int) and self.force(idx) in (0, -1)
+            if not first_or_last and self.ctx.flip("symiter-index-out-of-range"):     # l[0] / l[-1] exist in a non-empty list
                 raise PyExc("IndexError")
             return base.fields["mk"](self)
         if isinstance(base, (TheoryObj, SOpaque)):
